@@ -6,7 +6,7 @@
 From Coq Require Import ZArith List Bool Lia.
 Import ListNotations.
 Require Import Base.Py Base.ZList Gen.Gen_tags Model.Splice Model.Fam_flac
-  Proofs.Fam_flac_codec Proofs.Fam_flac_walk Proofs.Fam_flac_save Proofs.Fam_flac_thms Proofs.Fam_flac_final Proofs.Fam_flac_session Proofs.Fam_flac_examples.
+  Proofs.Fam_flac_codec Proofs.Fam_flac_walk Proofs.Fam_flac_save Proofs.Fam_flac_thms Proofs.Fam_flac_final Proofs.Fam_flac_session Proofs.Fam_flac_extra Proofs.Fam_flac_examples.
 Open Scope Z_scope.
 
 (* integer codecs of the two formats *)
@@ -53,6 +53,12 @@ Theorem C01_flac_save_load : forall f t o f', flac_wf f = true -> o_deleteid3 o 
   flac_save f t o = Ok f' -> flac_load f' = Ok (Some t).
 Proof. exact save_load. Qed.
 Print Assumptions C01_flac_save_load.
+(* also with deleteid3=True *)
+Theorem C01_flac_save_load_deleteid3 : forall f t o f', flac_wf f = true -> o_deleteid3 o = true -> flac_save f t o = Ok f' ->
+  flac_wf f' = true /\ flac_load f' = Ok (Some t).
+Proof. exact final_deleteid3_wf. Qed.
+Print Assumptions C01_flac_save_load_deleteid3.
+
 (* the same through a live object whose block list is consistent with the file (see C03_flac_session) *)
 Theorem C01_flac_save_load_live : forall f st bs0 t o f', flac_parse f = Ok st -> struct_wf st = true -> consistent bs0 st ->
   o_deleteid3 o = false -> flac_save_obj f bs0 t o = Ok f' ->
